@@ -1,4 +1,4 @@
-import PhononModel.Model.KernelFootprint
+import PhononModel.Model.KernelReads
 import PhononModel.Model.Wire
 open PhononModel PhononModel.Wire PhononModel.Footprint
 
@@ -83,6 +83,83 @@ def handle (line : String) : String :=
       let (t, c) ← t
       if !c.atEnd then none
       pure (s!"{t.size} {t.inBoundsB} {showRanges t.accesses}")
+    | "reads" =>
+      -- reads <kernel> <shape parameters> <tables…> : certificate, brute-force bounds, per array `name:size:max+1`
+      let (k, c) ← c.str?
+      let showT : String → Temp → String := fun n t => s!"{n}:{t.size}:{(t.accesses.foldl max 0) + (if t.accesses.isEmpty then 0 else 1)}:{t.inBoundsB}"
+      let res : Option (Bool × List (String × Temp) × Cur) := match k with
+        | "dynmat" => do
+          let (np, c) ← c.nat?
+          let (ns, c) ← c.nat?
+          let (nfc, c) ← c.nat?
+          let (nsv, c) ← c.nat?
+          let (p2s, c) ← c.nats? np
+          let (s2p, c) ← c.nats? ns
+          let (mu, c) ← c.nats? (ns * np * 2)
+          let S : DynShape := ⟨np, ns, nfc, nsv⟩
+          let T : DynTabs := ⟨tab p2s, tab s2p, fun p => mu.getD (2 * p) 0, fun p => mu.getD (2 * p + 1) 0⟩
+          pure (dynCert S T, [("fc", rDynFc S T), ("multi", rDynMulti S), ("svecs", rDynSvecs S T)], c)
+        | "d2f" => do
+          let (np, c) ← c.nat?
+          let (ns, c) ← c.nat?
+          let (ncomm, c) ← c.nat?
+          let (s2pp, c) ← c.nats? ns
+          let S : D2fShape := ⟨np, ns, ncomm⟩
+          pure (d2fCert S (tab s2pp), [("dm", rD2fDm S (tab s2pp)), ("masses", rD2fMasses S (tab s2pp))], c)
+        | "tetra_freqs" => do
+          let (ngpIn, c) ← c.nat?
+          let (nb, c) ← c.nat?
+          let (ngrid, c) ← c.nat?
+          let (nir, c) ← c.nat?
+          let (nmap, c) ← c.nat?
+          let (mprod, c) ← c.nat?
+          let (gps, c) ← c.nats? ngpIn
+          let (gpir, c) ← c.nats? nmap
+          let S : TfShape := ⟨ngpIn, nb, ngrid, nir, nmap, mprod⟩
+          pure (tfCert S (tab gps) (tab gpir), [("grid_address", rTfGridAddress S (tab gps)), ("gp_ir_index", rTfGpIr S), ("frequencies", rTfFreqs S (tab gpir))], c)
+        | "dos" => do
+          let (ngp, c) ← c.nat?
+          let (nir, c) ← c.nat?
+          let (nb, c) ← c.nat?
+          let (nf, c) ← c.nat?
+          let (nc, c) ← c.nat?
+          let (nml, c) ← c.nat?
+          let (mprod, c) ← c.nat?
+          let (gmt, c) ← c.nats? nml
+          let S : DosShape := ⟨ngp, nir, nb, nf, nc, nml, mprod⟩
+          pure (dosCert S (tab gmt), [("frequencies", rDosFreqs S (tab gmt)), ("coef", rDosCoef S), ("grid_mapping_table", rDosGmt S)], c)
+        | "distribute_fc2" => do
+          let (npos, c) ← c.nat?
+          let (nrot, c) ← c.nat?
+          let (len, c) ← c.nat?
+          let (nrows, c) ← c.nat?
+          let (al, c) ← c.nats? len
+          let (fi, c) ← c.nats? len
+          let (ma, c) ← c.nats? npos
+          let (ms, c) ← c.nats? npos
+          let (pm, c) ← c.nats? (nrot * npos)
+          let S : DfcShape := ⟨npos, nrot, len, nrows⟩
+          let T : DfcTabs := ⟨tab al, tab fi, tab ma, tab ms, fun r a => pm.getD (r * npos + a) 0⟩
+          pure (dfcCert S T, [("permutations", rDfcPerms S T), ("fc2", rDfcFc S T), ("map_atoms", rDfcMaps S T)], c)
+        | "compact" => do
+          let (np, c) ← c.nat?
+          let (ns, c) ← c.nat?
+          let (nt, c) ← c.nat?
+          let (p2s, c) ← c.nats? np
+          let (s2pp, c) ← c.nats? ns
+          let (nsym, c) ← c.nats? ns
+          let (pm, c) ← c.nats? (nt * ns)
+          let S : CsShape := ⟨np, ns, nt⟩
+          let T : CsTabs := ⟨tab p2s, tab s2pp, tab nsym, fun t a => pm.getD (t * ns + a) 0⟩
+          pure (csCert S T, [("permutations", rCsPerms S T), ("fc", rCsFc S T)], c)
+        | "thermal" => do
+          let (nq, c) ← c.nat?
+          let (nb, c) ← c.nat?
+          pure (true, [("frequencies", rThermalFreqs nq nb)], c)
+        | _ => none
+      let (cert, ts, c) ← res
+      if !c.atEnd then none
+      pure (s!"cert={cert} " ++ " ".intercalate (ts.map fun (n, t) => showT n t))
     | "loop" =>
       -- loop <name> <k> <params…> : iters, size, brute-force disjointness / bounds, union of writes
       let (name, c) ← c.str?
